@@ -286,6 +286,9 @@ def run_one(exe, script, extra_args=()):
 # Judging, shrinking, replay files
 # ---------------------------------------------------------------------------------------------
 
+LISTED = set()  # twin signatures covered by an open known finding (filled by check_known)
+
+
 def failure_of(prop, r):
     """Does result `r` carry a failing input for `prop`?  Returns a short description or None."""
     spec = P.PROPS[prop]
@@ -304,7 +307,13 @@ def failure_of(prop, r):
             return "policy model contradicted: " + r.l1["text"]
     if spec["judge"] == "TWIN":
         if r.twin and r.twin["prop"] == prop and not r.twin["ok"]:
+            if "out of step" in r.twin["text"] or "ended early" in r.twin["text"]:
+                return None  # malformed twin script (only arises while shrinking)
             return "twin runs differ: " + r.twin["text"]
+        if r.twin and r.twin["prop"] == prop:
+            for sig in r.twin["kf"]:
+                if sig not in LISTED:
+                    return "twin runs differ in a way not listed as a known finding: " + sig
     return None
 
 
@@ -324,8 +333,52 @@ def ops_of(script):
     return [l for l in script if l.startswith("op ")]
 
 
+def units_of(ops):
+    """Group op lines into logical steps: the copies of one call on the twin instances, or the range
+    call and its single calls (same @g tag), stay together so that shrinking keeps twins aligned."""
+    units = []
+    prev = None
+    for l in ops:
+        t = l.split()
+        tag = t[3] if len(t) > 3 and t[3].startswith("@g") else None
+        key = tag if tag else " ".join(t[2:])
+        if prev is not None and key == prev:
+            units[-1].append(l)
+        else:
+            units.append([l])
+        prev = key
+    return units
+
+
 def shrink(exe, script, pred, budget=400):
-    """Delta-debugging over the op lines; `pred(Res)` must stay true."""
+    """Delta-debugging over logical steps; `pred(Res)` must stay true."""
+    head = script[0]
+    ubest = units_of(ops_of(script))
+    n = 2
+    tries = 0
+    while len(ubest) >= 2 and tries < budget:
+        size = max(1, len(ubest) // n)
+        shrunk = False
+        for i in range(0, len(ubest), size):
+            cand = ubest[:i] + ubest[i + size:]
+            if not cand:
+                continue
+            tries += 1
+            r = run_one(exe, [head] + [l for u in cand for l in u] + ["end"])
+            if pred(r):
+                ubest = cand
+                n = max(n - 1, 2)
+                shrunk = True
+                break
+        if not shrunk:
+            if size == 1:
+                break
+            n = min(len(ubest), n * 2)
+    return [head] + [l for u in ubest for l in u] + ["end"]
+
+
+def shrink_lines(exe, script, pred, budget=400):
+    """(unused) line-level variant."""
     head, ops = script[0], ops_of(script)
     best = ops
     n = 2
@@ -468,7 +521,7 @@ def main_seq(prop, tier, seed, t0):
     scripts, ncorpus = gen_scripts(prop, tier, seed)
     results = run_scripts(exe, scripts)
     # 4. judge
-    listed = check_known(prop, exe, out)
+    LISTED.update(check_known(prop, exe, out))
     fails = []
     ties = []
     kf_seen = set()
@@ -478,11 +531,7 @@ def main_seq(prop, tier, seed, t0):
             fails.append((r, f))
             continue
         if r.twin and r.twin["ok"]:
-            for sig in r.twin["kf"]:
-                if sig in listed:
-                    kf_seen.add(sig)
-                elif spec["judge"] == "TWIN":
-                    fails.append((r, "twin runs differ in a way not listed as a known finding: " + sig))
+            kf_seen.update(r.twin["kf"])
         t = tie_break_of(prop, r)
         if t:
             ties.append((r, t))
